@@ -361,3 +361,58 @@ Example shared_logger_nontrivial :
     = [None; Some (simple_prefix Info ++ format_message "m" [])%string; None;
        Some (simple_prefix Error ++ format_message "m" [])%string].
 Proof. vm_compute. reflexivity. Qed.
+
+(* ---- thresholds beyond the five levels (the Level type is a 64-bit int: math.MaxInt as "never",
+   math.MinInt as "always", anything outside the 32-bit range) ---- *)
+Lemma level_value_bounds : forall l, go_LevelTrace <= level_value l <= go_LevelError.
+Proof. destruct l; vm_compute; split; discriminate. Qed.
+
+Lemma simple_above_error_silent : forall thr l msg args,
+  go_LevelError < thr -> simple_emit thr l msg args = None.
+Proof.
+  intros thr l msg args H.
+  destruct (simple_emit thr l msg args) as [line|] eqn:E; [|reflexivity].
+  assert (Hle : thr <= level_value l) by (apply (simple_emit_iff_enabled thr l msg args); eexists; exact E).
+  pose proof (level_value_bounds l) as B. exfalso. apply (Z.lt_irrefl thr).
+  eapply Z.le_lt_trans; [exact Hle|]. eapply Z.le_lt_trans; [apply B|exact H].
+Qed.
+
+Lemma simple_at_most_trace_emits_all : forall thr l msg args,
+  thr <= go_LevelTrace -> exists line, simple_emit thr l msg args = Some line.
+Proof.
+  intros thr l msg args H. apply (simple_emit_iff_enabled thr l msg args).
+  eapply Z.le_trans; [exact H|apply level_value_bounds].
+Qed.
+
+Lemma slog_above_error_silent : forall hmin l msg args,
+  go_LevelError < hmin -> slog_emit hmin l msg args = None.
+Proof.
+  intros hmin l msg args H.
+  destruct (slog_emit hmin l msg args) as [r|] eqn:E; [|reflexivity].
+  assert (Hle : hmin <= level_value l) by (apply (slog_emit_iff_enabled hmin l msg args); eexists; exact E).
+  pose proof (level_value_bounds l) as B. exfalso. apply (Z.lt_irrefl hmin).
+  eapply Z.le_lt_trans; [exact Hle|]. eapply Z.le_lt_trans; [apply B|exact H].
+Qed.
+
+Lemma slog_at_most_trace_emits_all : forall hmin l msg args,
+  hmin <= go_LevelTrace -> exists r, slog_emit hmin l msg args = Some r.
+Proof.
+  intros hmin l msg args H. apply (slog_emit_iff_enabled hmin l msg args).
+  eapply Z.le_trans; [exact H|apply level_value_bounds].
+Qed.
+
+Lemma threshold_above_error_silent : forall thr l msg args,
+  go_LevelError < thr -> simple_emit thr l msg args = None /\ slog_emit thr l msg args = None.
+Proof. intros thr l msg args H. split; [exact (simple_above_error_silent thr l msg args H)|exact (slog_above_error_silent thr l msg args H)]. Qed.
+
+Lemma threshold_at_most_trace_emits_all : forall thr l msg args,
+  thr <= go_LevelTrace ->
+  (exists line, simple_emit thr l msg args = Some line) /\ (exists r, slog_emit thr l msg args = Some r).
+Proof. intros thr l msg args H. split; [exact (simple_at_most_trace_emits_all thr l msg args H)|exact (slog_at_most_trace_emits_all thr l msg args H)]. Qed.
+
+Example extreme_thresholds_nontrivial :
+  simple_emit 9223372036854775807 Error "m" [] = None /\
+  (exists line, simple_emit (-9223372036854775808) Trace "m" [] = Some line) /\
+  simple_emit 4294967296 Error "m" [] = None /\ simple_emit 2147483648 Error "m" [] = None /\
+  (exists line, simple_emit (-2147483649) Trace "m" [] = Some line).
+Proof. vm_compute. repeat split; eexists; reflexivity. Qed.
